@@ -462,3 +462,36 @@ def oracle_admission(cfg, ops, trace):
                 est = {} if o != "Q" else est
         prev = s
     return None
+
+
+# ------------------------------------------------------------------- C14 (cache level)
+def oracle_only_get_records(cfg, ops, trace):
+    """Only get calls (hit or miss, each at most once) are ever recorded in the popularity sketch."""
+    import re as _re
+    prev = None
+    for i, toks, out, state, now in steps(cfg, trace):
+        if failed(out):
+            return None
+        s = snap(cfg, state)
+        if s is None:
+            return None
+        m = _re.match(r"(\d+):(\d+):(\d+):(\d+):\[([^\]]*)\]", s.sk)
+        cur = (int(m.group(1)), m.group(5)) if m else None
+        o = toks[0]
+        if prev is not None and cur is not None:
+            psk, prq = prev
+            if cfg["kind"] == "unsync":
+                if o != "G" and cur != psk:
+                    return f"op {i} `{' '.join(toks)}` changed the popularity sketch (size {psk[0]} -> {cur[0]}) although it is not a get"
+                if o == "G" and cur[0] > psk[0] + 1:
+                    return f"op {i} `{' '.join(toks)}` recorded more than one lookup (sketch size {psk[0]} -> {cur[0]})"
+            else:
+                if o != "G" and s.rq > prq:
+                    return f"op {i} `{' '.join(toks)}` queued a read op although it is not a get (rq {prq} -> {s.rq})"
+                if o == "G" and s.rq > prq + 1:
+                    return f"op {i} `{' '.join(toks)}` queued more than one read op (rq {prq} -> {s.rq})"
+                if cur != psk and prq == 0 and o != "G":
+                    return f"op {i} `{' '.join(toks)}`: the sketch changed although no recorded read was pending"
+        if cur is not None:
+            prev = (cur, getattr(s, "rq", 0))
+    return None
